@@ -1,7 +1,28 @@
 import OSProofs.Props.C16
+import OSProofs.Props.C16b
 #print axioms OS.C16_btPair_scale
 #print axioms OS.C16_btPair_shift
 #print axioms OS.C16_tmPair_shift
 #print axioms OS.C16_predict_pair_scale
 #print axioms OS.C16_predict_pair_shift
 #print axioms OS.C16_drawMargin_scale
+#print axioms OS.C16_teamAgg_scale
+#print axioms OS.C16_omegaDelta_scale
+#print axioms OS.C16_compute_scale
+#print axioms OS.C16_rateCore_scale
+#print axioms OS.C16_rate_scale
+#print axioms OS.C16_rateCore_scale_kappa0
+#print axioms OS.C16_teamAgg_shift
+#print axioms OS.C16_omegaDelta_shift
+#print axioms OS.C16_compute_shift
+#print axioms OS.C16_rateCore_shift
+#print axioms OS.C16_rate_shift
+#print axioms OS.C16_predictWin_scale
+#print axioms OS.C16_predictDraw_scale
+#print axioms OS.C16_predictRank_scale
+#print axioms OS.C16_predictWin_shift
+#print axioms OS.C16_predictDraw_shift
+#print axioms OS.C16_predictRank_shift
+#print axioms OS.applyTeam_scale
+#print axioms OS.inflate_scale
+#print axioms OS.omegaDelta_scale
